@@ -192,6 +192,12 @@ def rule_o_wrap(ctx):
         if op == "Sub":
             # a - b with tainted operands could underflow as well; report the same way
             pass
+        if op in ("Shl", "Shr"):
+            # a shift "overflows" only when the shift amount reaches the bit width: the shifted value cannot make it panic or wrap
+            ta = None
+            amt = b.op_const(c_)
+            if amt is not None and 0 <= amt < 64:
+                tb = None
         if ta or tb:
             R.inst(fn=b.path, site=b.where(loc), expr=desc, tainted_by=ta or tb, verdict="VIOLATION")
             R.viol("%s:%s" % (b.path, desc), b.where(loc),
